@@ -116,8 +116,8 @@ def impl_coverage(comp: str) -> dict | None:
 
 
 def kernel_samples(comp: str, tier: str) -> dict | None:
-    """simulator and loader: the Lean kernel itself (by decide) confirms model = implementation on small generated inputs"""
-    if comp not in ("sim", "loader"):
+    """simulator, loader and parser: the Lean kernel itself (by decide) confirms model = implementation on small generated inputs"""
+    if comp not in ("sim", "loader", "text"):
         return None
 
     def compute():
